@@ -387,8 +387,13 @@ pub struct Violation {
 #[derive(Clone, Debug, Default)]
 pub struct Counters {
     pub map: BTreeMap<&'static str, u64>,
+    /// counters with computed names (coverage matrices)
+    pub dynmap: BTreeMap<String, u64>,
 }
 impl Counters {
+    pub fn inc_dyn(&mut self, k: String) {
+        *self.dynmap.entry(k).or_insert(0) += 1;
+    }
     pub fn inc(&mut self, k: &'static str) {
         *self.map.entry(k).or_insert(0) += 1;
     }
@@ -398,6 +403,9 @@ impl Counters {
     pub fn merge(&mut self, o: &Counters) {
         for (k, v) in &o.map {
             *self.map.entry(k).or_insert(0) += v;
+        }
+        for (k, v) in &o.dynmap {
+            *self.dynmap.entry(k.clone()).or_insert(0) += v;
         }
     }
 }
@@ -719,6 +727,7 @@ impl<'s> Runner<'s> {
                     return None; // some other program ran: not this probe's business
                 }
                 self.counters.inc("c09_r1_checks");
+                self.counters.inc_dyn(format!("c09_checked/{}/{}/{}", kind.name(), engine.name(), prog.class.name()));
                 if a != expected && b != expected {
                     let rel = |v: u64| if v == 0 { "null".to_string() } else if v == pptr && pptr != 0 { "packet".to_string() } else { "other".to_string() };
                     return self.c09(
@@ -738,6 +747,7 @@ impl<'s> Runner<'s> {
                     return None;
                 }
                 self.counters.inc("c09_slot_checks");
+                self.counters.inc_dyn(format!("c09_checked/{}/{}/{}", kind.name(), engine.name(), prog.class.name()));
                 if prog.class == Class::ProbeSlotData {
                     if plen == 0 {
                         return None;
@@ -774,6 +784,7 @@ impl<'s> Runner<'s> {
                     return None; // an error of the history VM is compared with the fresh VM (C10)
                 }
                 self.counters.inc("c09_pkt_checks");
+                self.counters.inc_dyn(format!("c09_checked/{}/{}/{}", kind.name(), engine.name(), prog.class.name()));
                 match r0 {
                     Some(v) if v == expected => {}
                     Some(v) => return self.c09(format!("packet-load-base/{}", engine.name()), at, format!("{}: {}-byte {} at packet offset {} returned {:#x}, expected {:#x}", who, prog.w, if prog.class == Class::ProbePktAbs { "ldabs" } else { "ldind" }, idx, v, expected)),
@@ -791,6 +802,7 @@ impl<'s> Runner<'s> {
                         return None;
                     }
                     self.counters.inc("c09_pkt_checks");
+                    self.counters.inc_dyn(format!("c09_checked/{}/{}/{}", kind.name(), engine.name(), prog.class.name()));
                     if v != expected {
                         return self.c09(format!("packet-load-base/{}", engine.name()), at, format!("{}: ldabsb {} inside a local function and ldabsb {} after it returned gave {:#x}, expected {:#x}", who, i, j, v >> 8, expected >> 8));
                     }
@@ -806,6 +818,7 @@ impl<'s> Runner<'s> {
                 match (&obs.outcome, obs.probe_stack) {
                     (Outcome::Ok(v), Some((_, btag))) if btag == prog.tag as u64 => {
                         self.counters.inc("c09_helper_then_pkt_checks");
+                        self.counters.inc_dyn(format!("c09_checked/{}/{}/{}", kind.name(), engine.name(), prog.class.name()));
                         if *v != expected {
                             let pkt_ok = (v >> 40) == (expected >> 40);
                             let class = if pkt_ok { format!("stack-top/{}", engine.name()) } else { format!("packet-load-base/{}", engine.name()) };
@@ -814,6 +827,7 @@ impl<'s> Runner<'s> {
                     }
                     (Outcome::Signal(s), Some((_, btag))) if fresh && btag == prog.tag as u64 => {
                         self.counters.inc("c09_helper_then_pkt_checks");
+                        self.counters.inc_dyn(format!("c09_checked/{}/{}/{}", kind.name(), engine.name(), prog.class.name()));
                         return self.c09(format!("packet-load-base/{}", engine.name()), at, format!("{}: the packet load after a helper call died with signal {} (the helper itself returned normally)", who, s));
                     }
                     _ => {}
@@ -835,6 +849,7 @@ impl<'s> Runner<'s> {
                         return None;
                     }
                     self.counters.inc("c09_stack_checks");
+                    self.counters.inc_dyn(format!("c09_checked/{}/{}/{}", kind.name(), engine.name(), prog.class.name()));
                     if v != expected {
                         return self.c09(format!("stack-top/{}", engine.name()), at, format!("{}: bytes stored at r10-512 and r10-1 read back as {:#x}, expected {:#x}{}", who, v >> 8, expected >> 8, if prog.local_call { " (a local call was made in between)" } else { "" }));
                     }
@@ -843,6 +858,7 @@ impl<'s> Runner<'s> {
             Class::ProbeStack => {
                 let expected = prog.p0 as u64;
                 self.counters.inc("c09_stack_checks");
+                self.counters.inc_dyn(format!("c09_checked/{}/{}/{}", kind.name(), engine.name(), prog.class.name()));
                 match (&obs.outcome, obs.probe_stack) {
                     (Outcome::Ok(a), Some((b, btag))) => {
                         if btag != prog.tag as u64 {
